@@ -131,3 +131,62 @@ theorem next_m_cell_spec (sc : ScoreCell) (m : Option Cell) (p : Option PCell) (
         refine ⟨_, rfl, ⟨rfl, Nat.mod_eq_of_lt hb, by simp only [SCORE_MATCH]; omega, hb⟩, by simp [ppath]⟩
 
 end NucleoVerif.OptImpl
+
+namespace NucleoVerif.OptImpl
+open NucleoVerif NucleoVerif.Gen NucleoVerif.Gen.Opt
+
+/-! ## a pointwise relation between two lists of equal length -/
+
+def All2 {α β : Type} (R : α → β → Prop) : List α → List β → Prop
+  | [], [] => True
+  | a :: as, b :: bs => R a b ∧ All2 R as bs
+  | _, _ => False
+
+theorem All2.length_eq {α β : Type} {R : α → β → Prop} : ∀ {as : List α} {bs : List β}, All2 R as bs → as.length = bs.length
+  | [], [], _ => rfl
+  | _ :: as, _ :: bs, h => by simp only [List.length_cons]; rw [All2.length_eq (as := as) (bs := bs) h.2]
+  | [], _ :: _, h => by cases h
+  | _ :: _, [], h => by cases h
+
+theorem All2.append {α β : Type} {R : α → β → Prop} : ∀ {as : List α} {bs : List β} {as' : List α} {bs' : List β},
+    All2 R as bs → All2 R as' bs' → All2 R (as ++ as') (bs ++ bs')
+  | [], [], _, _, _, h' => h'
+  | _ :: as, _ :: bs, _, _, h, h' => ⟨h.1, All2.append (as := as) (bs := bs) h.2 h'⟩
+  | [], _ :: _, _, _, h, _ => by cases h
+  | _ :: _, [], _, _, h, _ => by cases h
+
+theorem All2.take {α β : Type} {R : α → β → Prop} : ∀ (k : Nat) {as : List α} {bs : List β}, All2 R as bs → All2 R (as.take k) (bs.take k)
+  | 0, _, _, _ => by simp [All2]
+  | _ + 1, [], [], _ => by simp [All2]
+  | k + 1, _ :: as, _ :: bs, h => ⟨h.1, All2.take k (as := as) (bs := bs) h.2⟩
+  | _ + 1, [], _ :: _, h => by cases h
+  | _ + 1, _ :: _, [], h => by cases h
+
+theorem All2.drop {α β : Type} {R : α → β → Prop} : ∀ (k : Nat) {as : List α} {bs : List β}, All2 R as bs → All2 R (as.drop k) (bs.drop k)
+  | 0, _, _, h => h
+  | _ + 1, [], [], _ => by simp [All2]
+  | k + 1, _ :: as, _ :: bs, h => All2.drop k (as := as) (bs := bs) h.2
+  | _ + 1, [], _ :: _, h => by cases h
+  | _ + 1, _ :: _, [], h => by cases h
+
+theorem All2.get {α β : Type} {R : α → β → Prop} : ∀ {as : List α} {bs : List β}, All2 R as bs →
+    ∀ (t : Nat) (a : α) (b : β), as[t]? = some a → bs[t]? = some b → R a b
+  | [], [], _, t, a, b, ha, _ => by simp at ha
+  | x :: as, y :: bs, h, 0, a, b, ha, hb => by
+    simp only [List.getElem?_cons_zero, Option.some.injEq] at ha hb
+    rw [← ha, ← hb]; exact h.1
+  | _ :: as, _ :: bs, h, t + 1, a, b, ha, hb => by
+    simp only [List.getElem?_cons_succ] at ha hb
+    exact All2.get (as := as) (bs := bs) h.2 t a b ha hb
+  | [], _ :: _, h, _, _, _, _, _ => by cases h
+  | _ :: _, [], h, _, _, _, _, _ => by cases h
+
+theorem All2.of_get {α β : Type} {R : α → β → Prop} : ∀ {as : List α} {bs : List β}, as.length = bs.length →
+    (∀ (t : Nat) (a : α) (b : β), as[t]? = some a → bs[t]? = some b → R a b) → All2 R as bs
+  | [], [], _, _ => trivial
+  | x :: as, y :: bs, hl, h =>
+    ⟨h 0 x y rfl rfl, All2.of_get (as := as) (bs := bs) (by simpa using hl) (fun t a b ha hb => h (t + 1) a b (by simpa using ha) (by simpa using hb))⟩
+  | [], _ :: _, hl, _ => by simp at hl
+  | _ :: _, [], hl, _ => by simp at hl
+
+end NucleoVerif.OptImpl
